@@ -12,7 +12,7 @@ from picomon.driver import h8
 from picomon.ref import pathgeom as PG
 
 NAME = "pathop"
-STATE = {"judge": True, "cap": None, "n": 0, "npoints": 80, "seen": None, "depth": 0}
+STATE = {"judge": True, "cap": None, "n": 0, "npoints": 80, "seen": None, "depth": 0, "extra_points": None}
 
 
 def _mat(cmds):
@@ -85,6 +85,12 @@ def judge(what, opname, operands, rules, result, rng=None, eps_frac=0.004):
             continue
         off = rng.uniform(1.5, 4.0) * eps * rng.choice((-1, 1))
         pts.append((px - dy / L * off, py + dx / L * off))
+    if STATE["extra_points"]:
+        # attribution runs: the point where a document-level mismatch was seen, and its surroundings
+        for q in STATE["extra_points"]:
+            pts.append(tuple(q))
+            for _ in range(12):
+                pts.append((q[0] + rng.uniform(-3, 3) * eps, q[1] + rng.uniform(-3, 3) * eps))
     kept = n_in = n_out = sens = 0
     for p in pts:
         if any(PG.dist(p, pl) < eps for pl in polys) or (rpolys and PG.dist(p, rpolys) < eps):
